@@ -61,6 +61,7 @@ type Engine struct {
 	Transparent map[*ssa.Function]bool
 	Opaque      map[*ssa.Function]bool // recursive spec functions: uninterpreted + one-step unfolding per occurrence
 	Recursive   map[*ssa.Function]bool // opaque, plus the defining equation as a quantified axiom
+	PureFields  map[string]bool        // pkgpath.Type.field: function-valued fields assumed pure and total
 	unfolding   map[*ssa.Function]bool
 	unfolded    map[string]bool
 	RepoPrefix  string // module path prefix of functions that must have contracts
@@ -99,6 +100,7 @@ type Engine struct {
 	concrete      []types.Type
 	initCache     map[*ssa.Package]*State
 	globRefs      map[*ssa.Global]int
+	subIdx        map[string]int // embedded array fields: (struct type|path) -> slot
 	refGlobCache  map[*ssa.Function][]*ssa.Global
 	inInit        bool
 	curState      *State                  // state of the block being executed (for value-level operations that read memory)
@@ -130,8 +132,10 @@ func NewEngine(prog *ssa.Program) *Engine {
 	e.Transparent = map[*ssa.Function]bool{}
 	e.Opaque = map[*ssa.Function]bool{}
 	e.Recursive = map[*ssa.Function]bool{}
+	e.PureFields = map[string]bool{}
 	e.initCache = map[*ssa.Package]*State{}
 	e.globRefs = map[*ssa.Global]int{}
+	e.subIdx = map[string]int{}
 	e.refGlobCache = map[*ssa.Function][]*ssa.Global{}
 	e.unfolding = map[*ssa.Function]bool{}
 	e.reset()
